@@ -136,6 +136,7 @@ class C20(HistoryProperty):
         # dataset classes pickle by REFERENCE: a round trip carries none of their state (and in one process the copy IS the
         # original), so for graphs that contain one only values / failures / keys are compared, not which effects ran
         cfg = gen.swarm_cfg(rng, off=("shape_change",), on=("dsclass",))
+        cfg["lib_steps"] = rng.choice([False, False, "picklable", "picklable", "all"])  # pipeline steps taken from labrea.functions (the library's own helpers)
         spec = gen.prune(gen.gen_spec(rng, cfg))
         for n in spec["nodes"]:
             if n["k"] == "dsclass" and rng.random() < 0.5:
@@ -322,12 +323,25 @@ class C20(HistoryProperty):
     def signature(self, case, violation):
         if violation["kind"] == "pickling-failed" and case["form"] == "decorator":
             return "decorator-form-function-not-importable-by-name"
+        if violation["kind"] == "pickling-failed" and "Can't pickle local object" in str(violation.get("detail", {}).get("error")):
+            local = [e.split("(")[0][2:] for e in gen.LIB_STEPS_LOCAL] + ["gt", "eq", "is_in", "instance_of", "concat"]
+            import re
+
+            m = re.search(r"local object '(\w+)\.<locals>", str(violation["detail"]["error"]))
+            if m and m.group(1) in local and any(
+                    f.get("expr") in gen.LIB_STEPS_LOCAL for n in case["spec"]["nodes"] if n["k"] == "apply" for f in [n["fn"]] if f["t"] == "lib"):
+                return "functions-helper-closes-over-a-lambda"
         return None
 
     def known_probes(self):
         spec = {"nodes": [{"id": "n0", "k": "opt", "key": "A", "default": {"t": "const", "v": 1}}, {"id": "n1", "k": "dataset", "name": "D0", "args": {"a": "n0"}}], "roots": ["n1"]}
         ops = [{"op": "evaluate", "node": "n1", "o": {}}, {"op": "restart", "how": "inproc", "protocol": 4, "hashseed": "1"}, {"op": "evaluate", "node": "n1", "o": {}}]
-        return [("KF-C20-decorator-form-unpicklable", {"cfg": {}, "spec": spec, "form": "decorator", "ops": ops})]
+        spec2 = {"nodes": [{"id": "n0", "k": "opt", "key": "L", "default": {"t": "const", "v": [1, 2]}},
+                           {"id": "n1", "k": "apply", "src": "n0", "via": "rshift", "fn": {"t": "lib", "expr": "F.into(_s.collect)", "refs": {}}},
+                           {"id": "n2", "k": "dataset", "name": "D0", "args": {"a": "n1"}}], "roots": ["n2"]}
+        ops2 = [{"op": "evaluate", "node": "n2", "o": {}}, {"op": "restart", "how": "inproc", "protocol": 4, "hashseed": "1"}, {"op": "evaluate", "node": "n2", "o": {}}]
+        return [("KF-C20-decorator-form-unpicklable", {"cfg": {}, "spec": spec, "form": "decorator", "ops": ops}),
+                ("KF-C20-functions-helpers-close-over-lambdas", {"cfg": {}, "spec": spec2, "form": "explicit", "ops": ops2})]
 
     def shrink_candidates(self, case):
         for c in super().shrink_candidates(case):
